@@ -315,9 +315,36 @@ def _guarded_by_stack_limit(body, call):
     return False, "no dominating comparison of len()+max_stack_size() against Stack.max_stack_size"
 
 
+def _mentions_field(rv, name):
+    def place_has(p):
+        return any(isinstance(x, list) and x[0] == "f" and len(x) == 4 and x[3] == name for x in p[1])
+    if rv[0] == "ref":
+        return place_has(rv[2])
+    if rv[0] == "use":
+        return _op_mentions_field(rv[1], name)
+    return False
+
+
+def _op_mentions_field(op, name):
+    return op[0] in ("c", "m") and any(isinstance(x, list) and x[0] == "f" and len(x) == 4 and x[3] == name for x in op[1][1])
+
+
 def e2c(fb, rep):
     R = "E2c"
     rep.rule(R, "interrupt poll on every cycle of the outer interpreter loop; inner loop leaves on calls")
+    # (after finding 40) what the poll reads: a thread runs on behalf of the thread that created it (a program blocked in `resume`
+    # of a thread it spawned runs that thread's code on the same OS thread), so the poll must also see an interrupt of an ancestor.
+    it = fb.body("gluon_vm::thread::Thread::interrupted")
+    if it is None:
+        rep.anchor_lost(R, "Thread::interrupted")
+    else:
+        reads_parent = any(True for i, j, pl, rv, ln in it.assigns() if _mentions_field(rv, "parent")) or any(_op_mentions_field(a, "parent") for c in it.calls() for a in c.args)
+        recurses = any(c.res.endswith("Thread::interrupted") for c in it.calls()) or any(c.res.endswith("Thread::interrupted") for x in fb.closures_of(it.id) for c in x.calls()) or bool(it.sccs())
+        if reads_parent and recurses:
+            rep.ok(R, "Thread::interrupted reads its own flag and, through Thread.parent, the flags of its ancestors")
+        else:
+            rep.violation(R, "interrupt-not-inherited", "Thread::interrupted reads only the thread's own flag: an interrupt of the thread the host started does not reach a thread the "
+                          "program spawned and resumed, whose loop then cannot be stopped", it.where())
     outer = fb.body("gluon_vm::thread::OwnedContext::<'b>::execute")
     if outer is None:
         cands = [b for b in fb.bodies.values() if b.kind == "fn" and any(c.res.endswith("Thread::interrupted") for c in b.calls())]
